@@ -175,6 +175,49 @@ pub fn check_declared(cfg: &Config, input: &[u8], cuts: &[usize]) -> Result<(), 
     }
 }
 
+/// a document made of a few very long tokens (comments, attribute values, attribute lists, doctype, text) between short ones
+pub fn gen_long_tokens(rng: &mut crate::rng::Rng) -> Vec<u8> {
+    let mut v: Vec<u8> = vec![];
+    for _ in 0..rng.range(3, 9) {
+        let n = rng.range(3000, 12000);
+        match rng.below(7) {
+            0 => {
+                v.extend(b"<!--");
+                v.extend(std::iter::repeat(b'c').take(n));
+                v.extend(b"-->");
+            }
+            1 => {
+                v.extend(b"<a href=\"");
+                v.extend(std::iter::repeat(b'v').take(n));
+                v.extend(b"\">");
+            }
+            2 => {
+                v.extend(b"<div");
+                for k in 0..n / 12 {
+                    v.extend(format!(" a{k}=b{k}").bytes());
+                }
+                v.extend(b">");
+            }
+            3 => {
+                v.extend(b"<!DOCTYPE html PUBLIC \"");
+                v.extend(std::iter::repeat(b'p').take(n));
+                v.extend(b"\">");
+            }
+            4 => v.extend(std::iter::repeat(b't').take(n)),
+            5 => {
+                v.extend(b"</span ");
+                v.extend(std::iter::repeat(b'e').take(n));
+                v.extend(b">");
+            }
+            _ => v.extend(gen::soup(rng, 6, gen::SoupKind::HtmlOnly, false)),
+        }
+        if rng.bool() {
+            v.extend(*rng.pick(&[&b"<span>"[..], b"</span>", b"x", b"<!--c-->", b"<p a=b>", b"<br>"]));
+        }
+    }
+    v
+}
+
 impl Prop for C01 {
     fn id(&self) -> &'static str {
         "C01"
@@ -222,7 +265,14 @@ impl Prop for C01 {
                 gen::observer_config(&mut ctx.rng, &mut cfg);
             }
             let mut input = gen_input(&mut ctx.rng, enc, 30);
-            let all_cuts = i % 40 == 0;
+            let long_tokens = i % 350 == 3;
+            if long_tokens {
+                // tokens of 3-12 KiB that stay buffered over several writes (arena growth, shifts with a long unfinished tail,
+                // writes that consume the whole buffer, then a write ending inside a token again)
+                input = gen_long_tokens(&mut ctx.rng);
+                ctx.count("long_token_documents");
+            }
+            let all_cuts = i % 40 == 0 && !long_tokens;
             let big = !all_cuts && ctx.rng.chance(1, 20000) && !input.is_empty();
             if big {
                 // a few ~1 MiB documents
@@ -233,6 +283,12 @@ impl Prop for C01 {
             let schedules: Vec<Vec<usize>> = if big {
                 let k = ctx.rng.range(1000, 70000);
                 vec![(1..input.len()).filter(|x| x % k == 0).collect()]
+            } else if long_tokens {
+                let k = ctx.rng.range(4, 16);
+                let mut c: Vec<usize> = (0..k).map(|_| ctx.rng.below(input.len().max(1))).collect();
+                c.sort_unstable();
+                c.dedup();
+                vec![c]
             } else if all_cuts { (0..=input.len()).map(|c| vec![c]).collect() } else { vec![gen::random_cuts(&mut ctx.rng, input.len())] };
             for cuts in schedules {
                 ctx.eval();
